@@ -7,7 +7,7 @@ wt="/tmp/mut/$name"
 if [ ! -d "$wt" ]; then
   git -C /repo worktree add -q --detach "$wt" HEAD || exit 2
   cp /repo/kopf/_cogs/helpers/versions.py "$wt/kopf/_cogs/helpers/"
-  git -C "$wt" apply "/verif/seeded/$name/patch.diff" || exit 2
+  git -C "$wt" apply "${SEEDSRC:-/verif/seeded/$name}/patch.diff" || exit 2
 fi
 mkdir -p "/tmp/mutev/$name"
 cd "${VROOT:-/verif}"
